@@ -1,3 +1,7 @@
+# tsan re-mmaps the shadow of every allocation > 64 KiB; with 16 workers that is tens of thousands of contended mmap/madvise calls.
+# The threshold only changes how shadow memory is cleared, not what is detected.  Race reports go to the part log (scanned by check.py).
+RACE_ENV = {"GORACE": "halt_on_error=0 clear_shadow_mmap_threshold=4294967296"}
+
 CHECK = {
     "level": "exploration",
     "engine": "ws-wire",
@@ -12,9 +16,9 @@ CHECK = {
     "level_note": "Trusts refws.Parser (written from RFC 6455 section 5 / RFC 7692 section 7), compress/flate for the independent inflate, encoding/json for the expected JSON text, "
                   "and crypto/sha1 for the accept key. Text payloads are generated as valid UTF-8. The -asan pass of the design is not part of these parts (canaries + checkptr are).",
     "parts": [
-        {"name": "mem", "pkg": "websocket", "run": "^TestVerif_C13_Mem$", "race": True,
+        {"name": "mem", "pkg": "websocket", "run": "^TestVerif_C13_Mem$", "race": True, "env": RACE_ENV,
          "timeout": {"quick": 900, "thorough": 7200}},
-        {"name": "loopback", "pkg": "verifharness/prop/c13", "run": "^TestVerif_C13_Loopback$", "race": True,
+        {"name": "loopback", "pkg": "verifharness/prop/c13", "run": "^TestVerif_C13_Loopback$", "race": True, "env": RACE_ENV,
          "timeout": {"quick": 600, "thorough": 3600}},
     ],
     "assumptions": [
